@@ -596,10 +596,12 @@ def run(tier, seed, replay=None):
                          "ign": c.get("ign")},
                 "nt_document": pipe.nt_doc(c["ts"]), "impl": r["impl"], "model": r["model"], "oracle": r["oracle"]}
 
+    spec_fail.sort(key=lambda i: (len(cases[i]["ts"]), i))   # smallest failing inputs first
     for i in spec_fail[:5]:
         run.violation(results[i]["oracle"][0]["what"], payload(i))
     if not spec_fail and not run.violations:
         if corr_fail or child_bad:
+            corr_fail.sort(key=lambda i: (len(cases[i]["ts"]), i))
             if corr_fail:
                 p = payload(corr_fail[0])
                 p["broken"] = "correspondence Model (Tracker.track/NsFilter/Run2 via %s) vs shexer.Shaper" % (
@@ -627,8 +629,8 @@ def run(tier, seed, replay=None):
                 "the option changes what is read (the cap deletes >= 1 typing triple / the filter deletes >= 1 triple).  "
                 "Namespace test: every p of length <= %d over {a,/,#,:} x every namespace of length <= 3 (+ pairs)" % (
                     4 if tier == "quick" else 5),
-        "exhaustive": bool(L),
-        "exhaustive_scope": None if not L else
+        "exhaustive": False,
+        "exhaustive_part": None if not L else
         "every ordering up to renaming of <= %d typing triples over <= 3 classes x <= 4 instances (%d orderings) x caps "
         "1..max+1 x {all_classes, target_classes = all, target_classes = [first class]}" % (L, len(canonical_orderings(L))),
         "distribution": dist,
@@ -637,8 +639,9 @@ def run(tier, seed, replay=None):
         "namespace_test_rows": child_n,
         "disagreements_model_vs_impl": len(corr_fail) + child_bad,
         "samples": [{"kind": cases[i]["kind"], "mode": cases[i]["mode"], "cap": cases[i]["cfg"]["cap"],
-                     "ign": cases[i].get("ign"), "n_triples": len(cases[i]["ts"]),
-                     "impl": results[i]["impl"][1][:200]} for i in pick],
+                     "targets": None if cases[i]["cfg"]["all_classes"] else cases[i]["cfg"]["targets"],
+                     "ign": cases[i].get("ign"), "nt_document": pipe.nt_doc(cases[i]["ts"]),
+                     "impl": results[i]["impl"][1][:300]} for i in pick],
     })
     run.assumptions = [
         "graphs are duplicate-free and node strings identify nodes (NoDup g, ids_faithful g); every typing triple has a "
